@@ -141,6 +141,12 @@ def step (line : String) : String :=
       let back := match ser with | .list x => deserVarList x | _ => []
       s!"ok {showPV ser} {listOr "," showPV back}"
     | none => "bad-op"
+  | ["tobytes", size, signed, vals] => match size.toNat?, (splitOr "," vals).mapM (·.toInt?) with
+    | some sz, some vs => "ok " ++ listOr "," toString (tobytesInt ⟨sz, signed = "1"⟩ vs)
+    | _, _ => "bad-op"
+  | ["frombytes", size, signed, count, bytes] => match size.toNat?, count.toNat?, parseNats? bytes with
+    | some sz, some c, some bs => "ok " ++ listOr "," toString (frombufferInt ⟨sz, signed = "1"⟩ bs c)
+    | _, _, _ => "bad-op"
   | ["infoser", t] => match parsePV? t with
     | some v => "ok " ++ showPV (docToPV (serInfo (pvToInfo v)))
     | none => "bad-op"
